@@ -13,7 +13,8 @@ use crate::storage::lua_engine::{get_lua_engine, LuaCommandContext};
 
 /// Process KEYS and ARGV from RESP frames
 fn process_keys_and_args(parts: &[RespFrame], start_idx: usize, num_keys: usize) -> std::result::Result<(Vec<Vec<u8>>, Vec<Vec<u8>>), String> {
-    if parts.len() < start_idx + num_keys {
+    // checked: a huge declared number of keys must not overflow the comparison
+    if start_idx.checked_add(num_keys).map_or(true, |needed| parts.len() < needed) {
         return Err("wrong number of arguments".to_string());
     }
     
